@@ -296,7 +296,17 @@ def op_cl_nonnumeric(ch, fl, lines, body):
 
 def op_cl_conflicting(ch, fl, lines, body):
     n = len(body)
-    if ch.draw(2, 'conflict-form') == 0:
+    form = ch.draw(3, 'conflict-form')
+    if form == 2 and n >= 10:
+        # the two values differ, and one is textually contained in the other (11 and 1, 25 and 5): a de-duplicating or substring-testing
+        # header store must not make the conflict disappear
+        d = b'%d' % n
+        other = [d[:1], d[-1:], d[:-1], d[1:].lstrip(b'0') or b'0'][ch.draw(4, 'conflict-part')]
+        if other == d:
+            other = d[:1] if d[:1] != d else b'0'
+        lines = _set_header(lines, b'Content-Length', d)
+        lines.insert(ch.draw(len(lines) + 1, 'pos'), b'Content-Length: ' + other)
+    elif form in (0, 2):
         lines = _set_header(lines, b'Content-Length', b'%d' % n)
         lines.insert(ch.draw(len(lines) + 1, 'pos'), b'Content-Length: %d' % (n + ch.choice([1, 7, 1000], 'delta')))
     else:
